@@ -117,10 +117,11 @@ def run(ctx):
     res = ctx.coq_props(extra_targets=['Model/LinksChk.v'])
     proof_ok = res['ok'] and not broken
     if not proof_ok:
-        rc_s, out_s = ctx.coq_eval('k_c03_sites', "Eval vm_compute in uncovered_sites.\n", ['Gen.LinkGuards', 'Model.LinksSites'], timeout=120)
-        if rc_s == 0 and 'nil' not in out_s:
+        rc_s, out_s = ctx.coq_eval('k_c03_sites', "From Coq Require Import String List.\nImport ListNotations.\nOpen Scope string_scope.\n"
+                                      "Eval vm_compute in uncovered_sites.\n", ['Gen.LinkGuards', 'Model.LinksSites'], timeout=120)
+        if rc_s == 0 and not re.search(r"=\s*\[\s*\]", out_s):
             ctx.log("link-following constructs of parser/** without a classified guard (C03_link_sites_covered): "
-                    + re.sub(r"\s+", " ", out_s.split(':')[0])[:1500])
+                    + re.sub(r"\s+", " ", out_s.split(': list')[0])[:1500])
     if not quick and res['ok']:
         if not ctx.coqchk():
             proof_ok = False
@@ -244,6 +245,10 @@ def run(ctx):
             verdicts.append(0)
             continue                    # corpus / witness files have no witness shape: parsing and rendering is the check
         bad = witness_ok(r, extra=not text.startswith('@') and not isinstance(d, str) and not label.startswith('use-family'))
+        if not bad and label == 'use-family flist keep':
+            ids = set(n.get('id') for n in r.get('nodes', []))
+            if not {'k1', 'k2', 'k3'} <= ids or 'k4' in ids:
+                bad = "filter lists: an element whose list has a valid entry must stay, one whose every url is dangling must go; tree has %s" % sorted(ids)
         verdicts.append(1 if bad else 0)
         if bad:
             ctx.violation("%s (%s)" % (bad, label), replay)
@@ -464,6 +469,11 @@ def use_family():
                  E('path').add(attr, 'm0'), E('path').add(attr, 'm0')])
             doc("frame %s: g <-> definition" % attr,
                 [E('g', 'a', kids=[E('path').add(attr, 'c1')]), E(tag, 'c1', kids=[E('path').add(attr, 'a')])])
+    # filter lists (second pass): a list with one valid entry (or a function) next to a dangling url keeps its element; only a list
+    # whose every url is invalid and that produced no filter drops it (checked on the implementation: ids k1..k3 present, k4 absent)
+    doc("flist keep", [E('filter', 'f', True, kids=[E('feFlood')]),
+                       E('path', 'k1').add('filter', ['f', 'vf_missing']), E('path', 'k2').add('filter', ['vf_missing', 'f']),
+                       E('path', 'k3').add('filter', [None, 'vf_missing']), E('path', 'k4').add('filter', ['vf_missing', 'vf_missing'])])
     return out
 
 
